@@ -157,6 +157,14 @@ func (w *storeWorld) checkResolvable(when string) {
 }
 
 func (w *storeWorld) checkGinPanics(prop string) {
+	if prop != "C03" && prop != "C10" {
+		// a recovered panic is an error response; only C03 and C10 speak about panics
+		if w.ginErr.Len() > 0 {
+			verifsim.Probe("gin_recovered_panic_not_counted")
+			w.ginErr.Reset()
+		}
+		return
+	}
 	if w.ginErr.Len() > 0 && !verifsim.IsCrashed() {
 		msg := w.ginErr.String()
 		fn := verifsim.StackRepoFunc(msg)
